@@ -301,7 +301,25 @@ def _top_level(op, func):
     return op
 
 
+_VIEW_OPS = ("memref.subview", "snax.layout_cast", "memref.memory_space_cast", "builtin.unrealized_conversion_cast")
+
 _FULL = re.compile(r"Memory space (\S+) is full, cannot allocate (\d+) bytes")
+
+
+def _static_sim(bufs, sizes, mems):
+    """Bump allocation in program order (the documented static scheme): ("ok", {k: addr}) or ("full", first k that does not fit)."""
+    bump = {n: m["start"] for n, m in mems.items()}
+    addrs = {}
+    for b in bufs:
+        if b["dyn"]:
+            continue
+        m = mems[b["mem"]]
+        a0 = GC.align_up(bump[b["mem"]], b["align"])
+        if a0 + sizes[b["k"]] > m["start"] + m["cap"]:
+            return "full", b["k"]
+        addrs[b["k"]] = a0
+        bump[b["mem"]] = a0 + sizes[b["k"]]
+    return "ok", addrs
 
 
 def prop_place(r):
@@ -345,6 +363,8 @@ def prop_place(r):
             k = op.attributes["c11.buf"].value.data
             casts[k] = op
             size_vals[k] = op.operands[0].owner.operands[0]
+    exp_kind, exp_val = built.static_expect
+    asked = {b["k"]: b["size"] for b in bufs}  # bytes asked from the allocator (front mode: what memref-to-snax computed)
     if front:
         if len(casts) != nb:
             raise Reject("pipeline: canonicalize removed the cast of an unused buffer")
@@ -355,12 +375,41 @@ def prop_place(r):
             if c < b["size"]:
                 raise Violation("pipeline:folded-size-smaller-than-the-layout-needs",
                                 dict(buffer=b["k"], folded=c, needed=b["size"], before=text_before, after=to_text(mod)))
+            asked[b["k"]] = c
+        exp_kind, exp_val = _static_sim(bufs, asked, {mdesc["name"]: mdesc for mdesc in r["mems"]})
 
     # ---- reference liveness (recipe level)
     n_t = built.n_stmts  # index of the terminator
     last_true = [GC.last_index(built.access, b["k"], None) for b in bufs]
-    last_views = [GC.last_index(built.touch_views, b["k"], b["stmt"]) for b in bufs]
-    last_direct = [GC.last_index(built.touch_direct, b["k"], b["stmt"]) for b in bufs]
+    # What the pass can see on the IR it is handed (only used to give violations a narrow signature, never to decide them):
+    # position of the last top-level op using the buffer's own cast (`direct`), or the cast or a value derived from it through
+    # view ops (`views`). In front mode canonicalize may have erased dead views, so this is read from the IR, not the recipe.
+    ops0 = list(func.body.block.ops)
+    pos0 = {id(o): i for i, o in enumerate(ops0)}
+    stmt_pos0 = {o.attributes["c11.stmt"].value.data: pos0[id(o)] for o in ops0 if "c11.stmt" in o.attributes}
+    stmt_pos0[n_t] = len(ops0) - 1
+
+    def _reach(k, follow):
+        end = pos0[id(casts[k])]
+        work = [casts[k].results[0]]
+        seen = set()
+        while work:
+            v = work.pop()
+            for u in v.uses:
+                end = max(end, pos0[id(_top_level(u.operation, func))])
+                if follow and u.operation.name in _VIEW_OPS:
+                    for res in u.operation.results:
+                        if id(res) not in seen:
+                            seen.add(id(res))
+                            work.append(res)
+        return end
+
+    alloc_p = [pos0[id(casts[b["k"]])] for b in bufs]
+    direct_p = [_reach(b["k"], False) for b in bufs]
+    views_p = [_reach(b["k"], True) for b in bufs]
+    if front and any(last_true[b["k"]] is not None and last_true[b["k"]] not in stmt_pos0 for b in bufs):
+        raise Reject("pipeline: canonicalize rewrote a tagged statement")
+    true_p = [None if last_true[b["k"]] is None else stmt_pos0[last_true[b["k"]]] for b in bufs]
 
     def live_pairs():
         out = []
@@ -376,7 +425,6 @@ def prop_place(r):
 
     # ---- what static mode must do with alignment 0 / absent, and when it must refuse
     zero_al = [b["k"] for b in bufs if not b["align"]]
-    exp_kind, exp_val = built.static_expect
 
     _REC.clear()
     raised_full = None
@@ -423,9 +471,9 @@ def prop_place(r):
                 raise Violation("placement:static:memory-full-reported-but-bump-allocation-fits",
                                 dict(raised=raised_full, expected_addresses=exp_val, mems=r["mems"], before=text_before))
             b = bufs[exp_val]
-            if raised_full != (b["mem"], b["size"]):
+            if raised_full != (b["mem"], asked[exp_val]):
                 raise Violation("placement:static:memory-full-reported-for-another-buffer",
-                                dict(raised=raised_full, expected=(b["mem"], b["size"]), before=text_before))
+                                dict(raised=raised_full, expected=(b["mem"], asked[exp_val]), before=text_before))
             return Info(nontrivial=False, classes=tuple(base_cls + ["static:memory-full-refusal"]))
         if exp_kind == "full":
             b = bufs[exp_val]
@@ -491,7 +539,8 @@ def prop_place(r):
                 raise Violation("placement:descriptor:size-field-differs-from-shape-operand", dict(buffer=k, dim=d, after=after()))
 
     placement = [dict(buffer=b["k"], mem=b["mem"], addr=addr[b["k"]], size=b["size"], align=b["align"], alloc_stmt=b["stmt"],
-                      last_use_stmt=last_true[b["k"]], last_direct_use_stmt=last_direct[b["k"]]) for b in bufs]
+                      last_use_stmt=last_true[b["k"]], alloc_op_index=alloc_p[b["k"]], last_use_op_index=true_p[b["k"]],
+                      last_direct_use_op_index=direct_p[b["k"]]) for b in bufs]
     detail0 = dict(mode=mode, mems=r["mems"], placement=placement, handed_to_solver=list(_REC), before=text_before)
     problems: list[tuple[str, dict]] = []
 
@@ -512,7 +561,7 @@ def prop_place(r):
         return addr[i] < addr[j] + bufs[j]["size"] and addr[j] < addr[i] + bufs[i]["size"]
 
     def meet(i, j, last):
-        return bufs[i]["stmt"] <= last[j] and bufs[j]["stmt"] <= last[i]
+        return alloc_p[i] <= last[j] and alloc_p[j] <= last[i]
 
     if mode == "static":
         for i in range(nb):
@@ -522,9 +571,9 @@ def prop_place(r):
     else:
         for j, i in pairs:
             if overlap(i, j):
-                if meet(i, j, last_direct):
+                if meet(i, j, direct_p):
                     sig = "placement:minimalloc:live-buffers-overlap"
-                elif meet(i, j, last_views):
+                elif meet(i, j, views_p):
                     sig = "placement:minimalloc:live-buffers-overlap:last-use-through-view-after-last-direct-use"
                 else:
                     sig = "placement:minimalloc:live-buffers-overlap:last-use-through-region-result-after-last-direct-use"
@@ -555,8 +604,8 @@ def prop_place(r):
             continue
         if top is None or pos[id(top)] <= stmt_pos[last_true[k]]:
             sig = "placement:minimalloc:dealloc-before-last-use"
-            if last_true[k] > last_direct[k]:
-                if last_views[k] >= last_true[k]:
+            if true_p[k] > direct_p[k]:
+                if views_p[k] >= true_p[k]:
                     sig += ":last-use-through-view-after-last-direct-use"
                 else:
                     sig += ":last-use-through-region-result-after-last-direct-use"
@@ -579,7 +628,7 @@ def prop_place(r):
                 known.append((sig, det))
 
     # ---- classes / non-trivial
-    through_view = any(last_true[k] is not None and last_true[k] > last_direct[k] for k in range(nb))
+    through_view = any(true_p[k] is not None and true_p[k] > direct_p[k] for k in range(nb))
     nested_last = False
     for k in range(nb):
         lt = last_true[k]
@@ -608,8 +657,11 @@ def prop_place(r):
             if prev_end is not None and a0 > prev_end:
                 cls.append("align:gap-between-neighbours")
             prev_end = max(prev_end or 0, a0 + sz)
-    nontrivial = bool(pairs) and (through_view or nested_last or "use:through-view" in built.features and "use:nested" in built.features)
-    return Info(nontrivial=nontrivial, classes=tuple(cls), known=known,
+    last_via_view = any(last_true[k] is not None and k in built.access_view[last_true[k]] for k in range(nb))
+    if last_via_view:
+        cls.append("last-use:through-view")
+    nontrivial = bool(pairs) and (last_via_view or nested_last)
+    return Info(nontrivial=nontrivial, classes=tuple(dict.fromkeys(cls)), known=known,
                 sample=dict(before=text_before, placement=placement))
 
 
@@ -629,9 +681,9 @@ def exh_size(tier):
 
 SUBS = [
     Sub("size_formula", GC.size_case, prop_size, budget=dict(quick=5000, thorough=100000), exhaustive=exh_size,
-        floor=dict(quick=100, thorough=2000),
+        floor=dict(quick=1000, thorough=12000),
         nontrivial_rule="the layout has a gap, an offset, or is dynamic (dynamic shape for the no-layout case)"),
-    Sub("placement", GC.place_case, prop_place, budget=dict(quick=4000, thorough=100000), floor=dict(quick=100, thorough=2000),
+    Sub("placement", GC.place_case, prop_place, budget=dict(quick=3000, thorough=60000), floor=dict(quick=200, thorough=4000),
         nontrivial_rule="two buffers of one memory have intersecting true lifetimes and some buffer's last use is through a view or "
                         "nested in scf.for/scf.if"),
 ]
